@@ -1509,7 +1509,9 @@ func UniqueInputFieldNamesRule(context *ValidationContext) *ValidationRuleInstan
 						}
 
 					}
-					return visitor.ActionSkip, nil
+					// keep descending: the value of this field may itself contain
+					// input objects (the name stack above is there for them)
+					return visitor.ActionNoChange, nil
 				},
 			},
 		},
